@@ -24,6 +24,10 @@ def run(rep, scratch, tier, seed, replay=None):
                 k += 1
                 lines.append("CLOBBER c%d %s %s %s" % (k, ds.did, kind, w))
                 cases.append(("c%d" % k, "CLOBBER", kind, w))
+        if ds.did in ("w0", "w1"):
+            k += 1
+            lines.append("CLOBBERRACE c%d %s" % (k, ds.did))
+            cases.append(("c%d" % k, "CLOBBERRACE", "", ""))
         for mode in ("ondemand", "preload", "cached", "cached+preload"):
             k += 1
             lines.append("READONLY c%d %s %s %d" % (k, ds.did, mode, rng.randrange(1, 1 << 30)))
@@ -33,13 +37,16 @@ def run(rep, scratch, tier, seed, replay=None):
     ilines, _, rc, err = filescommon.run_files(scratch, lines, "c16", model=False)
     if rc != 0:
         raise core.FrameworkError("harness exited with %d: %s" % (rc, err[-2000:]))
-    out = {l.split()[1]: l.split() for l in ilines if l.startswith(("CLOBBER", "READONLY"))}
+    out = {l.split()[1]: l.split() for l in ilines if l.startswith(("CLOBBER ", "READONLY ", "CLOBBERRACE "))}
     bad = []
     for cid, what, x, y in cases:
         o = out.get(cid)
         if o is None:
             continue
-        if what == "CLOBBER":
+        if what == "CLOBBERRACE":
+            if o[2] != "OK":
+                bad.append((cid, "concurrent creation of the output path: %s (two writers flushing to one path: exactly one may succeed; a file that appears during a Flush must not be replaced by a Flush that reports success)" % o[2]))
+        elif what == "CLOBBER":
             # model (Files.fs_flush): existing path -> Err and file system unchanged
             if o[2] != "ERR" or o[3] != "UNCHANGED":
                 bad.append((cid, "Flush/create on an existing %s file (%s path): outcome %s, file %s (model: ERR, UNCHANGED)" % (x, y, o[2], o[3])))
